@@ -137,6 +137,23 @@ def hPrec : Handler
   | [p, a] => toString (effectivePrec (if p == "d" then .decorated else .undecorated) (parseNat a))
   | _ => "bad-op"
 
+/-- fthreadprec <isImportingThread 0|1> -> `threadPrec`; frununder / fparsevia <path d|u> <ambient> -> the precision the wrapped
+computation sees (`runUnder path ambient id`, `parseVia path (fun _ _ p => p) …`): the definitions themselves, not only
+`effectivePrec` (audit item 35: no correspondence op; tied in c02 to the real `@precision` decorator and to real threads) -/
+def hThreadPrec : Handler
+  | [b] => toString (threadPrec (parseBool b))
+  | _ => "bad-op"
+
+def hRunUnder : Handler
+  | [p, a] => toString (runUnder (if p == "d" then .decorated else .undecorated) (parseNat a) id)
+  | _ => "bad-op"
+
+def hParseVia : Handler
+  | [p, a] =>
+    let f : ModelId → Unit → Nat → Nat := fun _ _ prec => prec
+    toString (parseVia (if p == "d" then .decorated else .undecorated) f ⟨0, [], [], 0⟩ () (parseNat a))
+  | _ => "bad-op"
+
 def dispatchFactory (op : String) (args : List String) : Option String :=
   match op with
   | "fmap" => some (hMap args)
@@ -146,6 +163,9 @@ def dispatchFactory (op : String) (args : List String) : Option String :=
   | "freg" => some (hReg args)
   | "fconc" => some (hConc args)
   | "fprec" => some (hPrec args)
+  | "fthreadprec" => some (hThreadPrec args)
+  | "frununder" => some (hRunUnder args)
+  | "fparsevia" => some (hParseVia args)
   | _ => none
 
 end RTV.Drv
